@@ -84,3 +84,64 @@ def contract():
             "the container_ndim dict handed to State is not constrained by this contract",
         ],
     )
+
+
+def upstream_contract():
+    """Node._get_upstream_states (C03): per input (name, val) of the node -- an arbitrary one -- the upstream node behind a lazy
+    out-field is recorded iff it has a state of non-zero depth: the FIRST connection to that node stores
+    `(node.state, [val._field])` under `node.name`, a later one appends `val._field` to that entry's field list; an input is
+    passed over only on a path on which it is not a LazyOutField, its node has no state, or that state's depth() is falsy.
+    Nothing else is written to the mapping that is returned."""
+    from pyvc.engine import Ref, U, truthy_U
+
+    def split_upstream_node_recorded_under_its_name(E, st, events):
+        evs = [e for e in events if not e.raised]
+        elem = to_U(st.ghost["_iter_elem"])
+        val = z3.Function("item1", U, U)(elem)
+        node = E.eval_spec_value("v._node", st, {"v": val})
+        nname = E.eval_spec_value("v._node.name", st, {"v": val})
+        nstate = E.eval_spec_value("v._node.state", st, {"v": val})
+        fld = E.eval_spec_value("v._field", st, {"v": val})
+        inner = E.eval_spec_value("v._node.state._inner_container_ndim", st, {"v": val})
+        depth = [e for e in evs if e.name.endswith("state.depth")]
+        writes = [e for e in evs if e.name == "setitem" and not to_U(e.args[0]).eq(to_U(inner))]
+        appends = [e for e in evs if e.name.endswith(".append")]
+        other = [e for e in evs if e not in depth and e not in writes and e not in appends and e.name not in ("setitem", "__getitem__")]
+        if other or len(writes) + len(appends) > 1:
+            raise Unsupported(f"Node._get_upstream_states: loop effects {[e.name for e in evs]} (contract out of date)")
+        if writes:
+            w = writes[0]
+            v = w.args[2]
+            if not (isinstance(v, tuple) and len(v) == 2 and isinstance(v[1], Ref)):
+                raise Unsupported("Node._get_upstream_states: entry no longer (state, [field]) (contract out of date)")
+            items = st.heap[v[1].n].seq.items
+            return z3_and(to_U(w.args[1]) == to_U(nname), to_U(v[0]) == to_U(nstate), items is not None and len(items) == 1 and eq(items[0], fld))
+        if appends:
+            a = appends[0]
+            gets = [e for e in evs if e.name == "__getitem__"]
+            if len(gets) != 2:
+                raise Unsupported("Node._get_upstream_states: append no longer on upstream_states[name][1] (contract out of date)")
+            g1, g2 = gets
+            return z3_and(to_U(g1.args[1]) == to_U(nname), to_U(g2.args[0]) == to_U(g1.ret), g2.args[1] == 1, to_U(a.args[0]) == to_U(g2.ret), to_U(a.args[1]) == to_U(fld))
+        # passed over: only for a non-lazy input or an upstream node without (non-trivial) state
+        is_lazy_out = E.eval_spec("isinstance(v, lazy.LazyOutField)", st, {"v": val})
+        has_state = E.truthy(st, nstate)
+        reasons = [z3_not(is_lazy_out), z3_not(has_state)]
+        if depth:
+            reasons.append(z3_not(E.truthy(st, depth[-1].ret)))
+        return z3.Or(*[r if is_z3(r) else z3.BoolVal(bool(r)) for r in reasons])
+
+    return Contract(
+        file="pydra/engine/node.py",
+        qualname="Node._get_upstream_states",
+        params={"self": "U"},
+        default_effects=True,
+        callees={"isinstance": {"kind": "pure", "name": "isinstance", "returns": "Bool"}},
+        attrs={"input_values": {"kind": "U"}, "_node": {"kind": "U"}, "state": {"kind": "U"}, "name": {"kind": "U"}, "_field": {"kind": "U"}, "splitter": {"kind": "U"}, "_inner_container_ndim": {"kind": "U"}},
+        loops={0: {"invariants": [], "iteration_ensures": [("split-upstream-node-recorded-under-its-name-with-the-connecting-field", "property:C03", split_upstream_node_recorded_under_its_name)]}},
+        min_paths=1,
+        trusted=[
+            "val._node / .state / .name / ._field are side-effect-free reads; State.depth() is an opaque call",
+            "first-vs-later connection is decided by `node.name not in upstream_states` (dict membership, not interpreted): both branches are checked for every input",
+        ],
+    )
